@@ -18,6 +18,23 @@ from vlib import common as C
 from vlib.props import PROPS
 
 
+def compact_hist(h, max_keys=80, max_len=48):
+    """outcome histogram for the evidence file: class names cut to a readable length (outputs that are values, e.g.
+    hex strings, fall into one class per family), at most `max_keys` classes, the rest summed up as `other`"""
+    c = collections.Counter()
+    for k, v in h.items():
+        fam, _, cls = k.partition(":")
+        if len(cls) > max_len or (len(cls) > 12 and all(ch in "0123456789abcdefx" for ch in cls)):
+            cls = "value"
+        c[fam + ":" + cls] += v
+    top = c.most_common(max_keys)
+    out = dict(sorted(top))
+    rest = sum(c.values()) - sum(v for _, v in top)
+    if rest:
+        out["other"] = rest
+    return out
+
+
 def project(prop, out):
     f = PROPS[prop].get("project")
     return f(out) if f else out
@@ -188,7 +205,7 @@ def main():
         "theorems": obligations, "broken_theorems": broken,
         "evaluations": len(run_cases) + len(id_orcs), "distinct_nontrivial": len(seen_nt),
         "rule": P["rule"], "samples": samples,
-        "families": dict(fam_hist), "outcomes": dict(sorted(out_hist.items())),
+        "families": dict(fam_hist), "outcomes": compact_hist(out_hist),
         "correspondence_cases": len(run_cases), "oracle_cases": len(id_orcs),
         "disagreements": len(disagreements), "oracle_failures": len(oracle_fails),
         "detail_only_differences": len(detail_diffs),
